@@ -372,10 +372,13 @@ class SymInt:
     def __init__(self, e, z):
         self.e, self.z = e, z
 
-    def _bin(self, o, f):
+    def _bin(self, o, f, rat=None):
         if isinstance(o, SymRat):
             return NotImplemented
         if isinstance(o, float):
+            if rat is not None and not self.e.fp and o == o and o not in (float("inf"), float("-inf")):
+                # exact-rational mode: a concrete float operand is the rational it denotes
+                return rat(SymRat.lift(self.e, self), SymRat.lift(self.e, o))
             return NotImplemented
         oz = _z(self.e, o)
         if oz is NotImplemented:
@@ -391,18 +394,18 @@ class SymInt:
         return SymBool(self.e, f(self.z, oz))
 
     def __add__(s, o):
-        return s._bin(o, lambda a, b: a + b)
+        return s._bin(o, lambda a, b: a + b, lambda a, b: a + b)
 
     __radd__ = __add__
 
     def __sub__(s, o):
-        return s._bin(o, lambda a, b: a - b)
+        return s._bin(o, lambda a, b: a - b, lambda a, b: a - b)
 
     def __rsub__(s, o):
-        return s._bin(o, lambda a, b: b - a)
+        return s._bin(o, lambda a, b: b - a, lambda a, b: b - a)
 
     def __mul__(s, o):
-        return s._bin(o, lambda a, b: a * b)
+        return s._bin(o, lambda a, b: a * b, lambda a, b: a * b)
 
     __rmul__ = __mul__
 
